@@ -138,6 +138,45 @@ Section ListFacts.
   Lemma ForallOrdPairs_cons_inv : forall (R : X -> X -> Prop) (x : X) (s : list X),
       ForallOrdPairs R (x :: s) -> Forall (R x) s /\ ForallOrdPairs R s.
   Proof. intros R x s H. inversion H; subst. split; assumption. Qed.
+
+  Lemma subseq_filter_intro : forall (f : X -> bool) (k s : list X),
+      subseq k s -> Forall (fun x => f x = true) k -> subseq k (filter f s).
+  Proof.
+    intros f k s H. induction H as [|y k s H IH|y k s H IH]; intros HF; cbn [filter].
+    - constructor.
+    - destruct (f y); [apply ss_skip|]; apply IH; exact HF.
+    - inversion HF as [|y' k' Hy Hk]; subst. rewrite Hy. apply ss_keep. apply IH. exact Hk.
+  Qed.
+
+  Lemma subseq_nil_inv : forall k : list X, subseq k [] -> k = [].
+  Proof. intros k H. inversion H. reflexivity. Qed.
+
+  Lemma precedes_filter : forall (f : X -> bool) (a c : X) (s : list X),
+      precedes a c s -> f a = true -> f c = true -> precedes a c (filter f s).
+  Proof.
+    intros f a c s Hp Ha Hc. induction Hp as [s Hin|x s Hp IH]; cbn [filter].
+    - rewrite Ha. apply pr_here. apply filter_In. split; assumption.
+    - destruct (f x); [apply pr_later|]; exact IH.
+  Qed.
+
+  Lemma in_two_precedes : forall (a c : X) (s : list X),
+      In a s -> In c s -> a <> c -> precedes a c s \/ precedes c a s.
+  Proof.
+    intros a c s. induction s as [|x s IH]; intros Ha Hc Hne; [destruct Ha|].
+    destruct Ha as [Ea|Ha]; destruct Hc as [Ec|Hc].
+    - exfalso. apply Hne. congruence.
+    - left. subst x. apply pr_here. exact Hc.
+    - right. subst x. apply pr_here. exact Ha.
+    - destruct (IH Ha Hc Hne) as [H|H]; [left|right]; apply pr_later; exact H.
+  Qed.
+
+  Lemma sorted_ForallOrdPairs : forall (R P : X -> X -> Prop) (k : list X),
+      StronglySorted R k -> (forall a b, In a k -> In b k -> R a b -> P a b) -> ForallOrdPairs P k.
+  Proof.
+    intros R P k HS. induction HS as [|x k HS IH HF]; intros H; constructor.
+    - rewrite Forall_forall in *. intros y Hy. apply H; [left; reflexivity|right; exact Hy|apply HF; exact Hy].
+    - apply IH. intros a b Ha Hb. apply H; right; assumption.
+  Qed.
 End ListFacts.
 
 Lemma filter_map_comm : forall {X Y : Type} (f : X -> Y) (p : Y -> bool) (s : list X),
@@ -241,6 +280,43 @@ Section GreedyFacts.
         { intro Hc. apply Hnot. right. exact Hc. }
         exists a. split; [right; exact Ha|]. split; [exact Hac|].
         apply pr_later. eapply precedes_subseq; [apply subseq_filter|exact Hp].
+  Qed.
+
+  (* the three clauses determine the result: greedy is the ONLY independent, dominating subsequence *)
+  Lemma greedy_unique : forall s k,
+      NoDup s -> subseq k s ->
+      ForallOrdPairs (fun a b => cov a b = false) k ->
+      (forall c, In c s -> ~ In c k -> exists a, In a k /\ cov a c = true /\ precedes a c s) ->
+      k = greedy s.
+  Proof.
+    intros s. pattern s. apply greedy_ind; clear s.
+    - intros k _ Hsub _ _. rewrite greedy_nil. apply subseq_nil_inv. exact Hsub.
+    - intros b r IH k HN Hsub HI HD. inversion HN as [|b' r' Hbr HNr]; subst.
+      inversion Hsub as [|x k' s' Hk'|x k' s' Hk']; subst.
+      + exfalso.
+        assert (Hnk : ~ In b k) by (intro H; apply Hbr; eapply subseq_In; eassumption).
+        destruct (HD b (or_introl eq_refl) Hnk) as [a [Ha [_ Hp]]].
+        inversion Hp as [s' Hin|x s' Hp']; subst.
+        * exact (Hbr Hin).
+        * apply precedes_In in Hp'. destruct Hp' as [_ Hin]. exact (Hbr Hin).
+      + rewrite greedy_cons. f_equal.
+        apply ForallOrdPairs_cons_inv in HI. destruct HI as [HIb HIk].
+        apply IH.
+        * eapply subseq_NoDup; [apply subseq_filter|exact HNr].
+        * apply subseq_filter_intro; [exact Hk'|].
+          eapply Forall_impl; [|exact HIb]. intros o Ho. unfold uncovered_by. rewrite Ho. reflexivity.
+        * exact HIk.
+        * intros c Hc Hnc. apply filter_In in Hc. destruct Hc as [Hcr Hcu].
+          unfold uncovered_by in Hcu. apply negb_true_iff in Hcu.
+          assert (Hnk : ~ In c (b :: k')).
+          { intros [E|H]; [subst c; exact (Hbr Hcr)|exact (Hnc H)]. }
+          destruct (HD c (or_intror Hcr) Hnk) as [a [Ha [Hac Hp]]].
+          destruct Ha as [E|Ha]; [subst a; congruence|].
+          exists a. split; [exact Ha|]. split; [exact Hac|].
+          inversion Hp as [s' Hin|x s' Hp']; subst; [congruence|].
+          apply precedes_filter; [exact Hp'| |].
+          -- rewrite Forall_forall in HIb. unfold uncovered_by. rewrite (HIb a Ha). reflexivity.
+          -- unfold uncovered_by. rewrite Hcu. reflexivity.
   Qed.
 End GreedyFacts.
 
@@ -694,5 +770,45 @@ Section NmsFacts.
     rewrite filter_all; [|intros b Hb; apply (nms_in_passing l b Hb)].
     rewrite sort_sorted_id; [|apply nms_sorted_desc].
     apply greedy_fixpoint. apply nms_independent_lemma.
+  Qed.
+
+  Lemma higher_irrefl : forall a, ~ higher a a.
+  Proof. intros a [H|[_ H]]; [lra|lia]. Qed.
+
+  Lemma higher_asym : forall a b, higher a b -> higher b a -> False.
+  Proof. unfold higher. intros a b [H1|[H1 H1']] [H2|[H2 H2']]; try lra; lia. Qed.
+
+  Lemma NoDup_of_fst : forall s : list cand, NoDup (map fst s) -> NoDup s.
+  Proof.
+    induction s as [|x s IH]; intros H; [constructor|].
+    cbn [map] in H. inversion H as [|x' s' Hn Hs]; subst. constructor.
+    - intro Hin. apply Hn. apply in_map. exact Hin.
+    - apply IH. exact Hs.
+  Qed.
+
+  (* The clauses of the property determine the output: any subsequence of the stably sorted candidates that is
+     independent and covers everything it drops IS the result of nms. *)
+  Lemma nms_unique_lemma : forall l (k : list cand),
+      subseq k (sorted_candidates l) ->
+      (forall a b, In a k -> In b k -> higher a b -> covers (snd a) (snd b) = false) ->
+      (forall c, In c (sorted_candidates l) -> ~ In c k ->
+                 exists a, In a k /\ higher a c /\ covers (snd a) (snd c) = true) ->
+      k = nms_cands l.
+  Proof.
+    intros l k Hsub HI HD. rewrite nms_cands_greedy.
+    pose proof (sorted_candidates_stable l) as HS.
+    pose proof (NoDup_of_fst _ (sorted_candidates_NoDup l)) as HN.
+    apply greedy_unique.
+    - exact HN.
+    - exact Hsub.
+    - apply (sorted_ForallOrdPairs higher).
+      + eapply subseq_StronglySorted; eassumption.
+      + intros a b Ha Hb Hab. unfold ccov. apply HI; assumption.
+    - intros c Hc Hnc. destruct (HD c Hc Hnc) as [a [Ha [Hh Hcov]]].
+      exists a. split; [exact Ha|]. split; [exact Hcov|].
+      assert (Has : In a (sorted_candidates l)) by (eapply subseq_In; eassumption).
+      assert (Hne : a <> c) by (intro E; subst; exact (higher_irrefl _ Hh)).
+      destruct (in_two_precedes a c _ Has Hc Hne) as [Hp|Hp]; [exact Hp|].
+      exfalso. apply (higher_asym a c Hh). eapply precedes_sorted; eassumption.
   Qed.
 End NmsFacts.
